@@ -172,7 +172,7 @@ func renderDoc(sb *strings.Builder, j map[string]interface{}, ws int) {
 			if sstr(m["k"]) == "~sur" {
 				sb.WriteString(`"a\ud800"`) // a key spelled with a lone surrogate escape
 			} else {
-				sb.WriteString(strconv.Quote(sstr(m["k"])))
+				sb.WriteString(spellKey(sstr(m["k"])))
 			}
 			sb.WriteByte(':')
 			sp()
@@ -181,6 +181,28 @@ func renderDoc(sb *strings.Builder, j map[string]interface{}, ws int) {
 		sb.WriteByte('}')
 	case "none":
 	}
+}
+
+// keySpelling: how object keys are written (the same key either way): 0 plain, 1 first character as a \uXXXX escape,
+// 2 every character as a \uXXXX escape (what an ASCII-only encoder produces)
+var keySpelling = 0
+
+func spellKey(k string) string {
+	if keySpelling == 0 || k == "" {
+		return strconv.Quote(k)
+	}
+	var sb strings.Builder
+	sb.WriteByte('"')
+	for i, r := range k {
+		if r < 0x10000 && (keySpelling == 2 || i == 0) {
+			fmt.Fprintf(&sb, `\u%04x`, r)
+		} else {
+			q := strconv.Quote(string(r))
+			sb.WriteString(q[1 : len(q)-1])
+		}
+	}
+	sb.WriteByte('"')
+	return sb.String()
 }
 
 func docText(j map[string]interface{}, ws int) string {
